@@ -22,6 +22,7 @@ from typing import Any, Final, TypeAlias as _TypeAlias
 from librt.base64 import b64encode
 
 import mypy.build
+from mypy.build import PRI_INDIRECT
 import mypy.errors
 import mypy.main
 from mypy.dmypy_util import WriteToConn, receive, send
@@ -774,6 +775,10 @@ class Server:
                 state = graph[nxt.module]
                 ancestors = state.ancestors or []
                 for dep in state.dependencies + ancestors:
+                    if state.priorities.get(dep) == PRI_INDIRECT:
+                        # Only follow actual imports, like load_graph() does: an indirect
+                        # dependency says nothing about what is part of the build.
+                        continue
                     if dep not in seen:
                         seen.add(dep)
                         worklist.append(BuildSource(graph[dep].path, graph[dep].id, followed=True))
@@ -784,7 +789,11 @@ class Server:
     ) -> list[BuildSource]:
         """Return the direct imports of module not included in seen."""
         state = graph[module[0]]
-        return [BuildSource(graph[dep].path, dep, followed=True) for dep in state.dependencies]
+        return [
+            BuildSource(graph[dep].path, dep, followed=True)
+            for dep in state.dependencies
+            if state.priorities.get(dep) != PRI_INDIRECT
+        ]
 
     def find_added_suppressed(
         self, graph: mypy.build.Graph, seen: set[str], search_paths: SearchPaths
